@@ -25,7 +25,10 @@ import multiprocessing as mp
 from vlib.runner import Check
 
 REPLAY = 'props.C29_R:replay'
-KINDS = ('int', 'pair', 'str', 'none-first', 'dict')
+KINDS = ('int', 'pair', 'str', 'none-first', 'dict', 'zero-first', 'falsy-later', 'list')
+# 'zero-first' (a counter / vote count starting at 0), 'falsy-later' (7, 0, '', None: falsy values that are NOT the first one)
+# and 'list' ([] first: an empty ballot list) were added after the audit of over-specific inputs: before, the only falsy value
+# any history contained was None, and only as the first value.
 
 
 BUDGET_FACTOR = 40      # a correct search reads O(range/step + k log range) levels; 40 x (range + 5) reads is far beyond it
@@ -46,6 +49,12 @@ def mk_value(kind, i):
         return None if i == 0 else i
     if kind == 'dict':
         return {'votes': i}
+    if kind == 'zero-first':
+        return i
+    if kind == 'falsy-later':
+        return (7, 0, '', None)[i]
+    if kind == 'list':
+        return list(range(i))
     raise ValueError(kind)
 
 
@@ -98,18 +107,24 @@ def eval_case(case):
 
     fn = case.get('fn', 'all')
     if fn in ('all', 'find_state_changes'):
-        ok, got = guard('find_state_changes', lambda: list(S.find_state_changes(head, last, get, _eq, step)))
+        if step is None:      # the caller relies on the default sampling step (as every BlockSliceQuery helper does)
+            ok, got = guard('find_state_changes', lambda: list(S.find_state_changes(head, last, get, _eq)))
+        else:
+            ok, got = guard('find_state_changes', lambda: list(S.find_state_changes(head, last, get, _eq, step)))
         if ok and got != want:
             if sorted(got, key=lambda t: t[0]) == want:
                 w = 'find_state_changes: all changes reported but not in increasing order'
             elif all(g in want for g in got):
-                lowest = min(range(head - step, last, -step), default=head)      # lowest level the stride loop samples
+                st = step or 60
+                lowest = min(range(head - st, last, -st), default=head)      # lowest level the stride loop samples
                 missed = [c for c, _ in want if c not in [g[0] for g in got]]
                 w = ('find_state_changes: changes at or below the lowest sampled level missed (sampling stops before last)'
                      if all(c <= lowest for c in missed) else 'find_state_changes: changes missed')
             else:
                 w = 'find_state_changes: wrong levels or values reported'
             fails.append(('find_state_changes::ensures.exactly_the_changes_increasing', f'returned {got!r}, expected {want!r}', w))
+    if step is None:
+        return fails
     if fn in ('all', 'find_state_change') and want and step == 1:
         ok, got = guard('find_state_change', lambda: S.find_state_change(head, last, get, _eq, pred_value=get(last)))
         if ok and tuple(got) != want[0]:
@@ -187,31 +202,60 @@ def _row(args):
     return n, classes, fails
 
 
+def _row_default(args):
+    """find_state_changes called WITHOUT a step (the way find_upvotes / find_ballots call it) on ranges around multiples of
+    the documented default of 60: no change, every single change level, and pairs of change levels taken from the levels next
+    to the range ends and to the sampled levels"""
+    last, head, kind = args
+    n, classes, fails = 0, set(), {}
+    R = head - last
+    near = sorted({l for b in (last, head, head - 60, head - 120) for l in (b - 1, b, b + 1, b + 2) if last < l <= head})
+    sets = [()] + [(c,) for c in range(last + 1, head + 1)] + list(itertools.combinations(near, 2)) + list(itertools.combinations(near[:6], 3))
+    for cps in sets:
+        case = dict(last=last, head=head, changes=list(cps), kind=kind, step=None, fn='find_state_changes')
+        n += 1
+        classes.add(f'R={R} k={len(cps)} step=default kind={kind}')
+        for clause, info, w in eval_case(case):
+            key = (clause, w)
+            if key not in fails:
+                fails[key] = dict(case={**case, 'clause': clause}, info=info, count=0)
+            fails[key]['count'] += 1
+    return n, classes, fails
+
+
+def _job(j):
+    return _row_default(j[1:]) if j[0] == 'default' else _row(j[1:])
+
+
 def run_R(ck: Check):
     from pytezos.rpc import search as S
     for f in (S.find_state_changes, S.find_state_change, S.walk_state_change_interval, S.find_state_change_intervals):
         ck.function(f)
     thorough = ck.thorough()
     RMAX = 40 if thorough else 14
-    ck.bound('range', f'1..{RMAX} levels above `last`, last in {{0, 7}}')
+    ck.bound('range', f'0..{RMAX} levels above `last` (0 = the one-level range), last in {{0, 7}}; default step: ranges 1, 59, 60, 61, 121, 130')
     ck.bound('change_points', 3)
-    ck.bound('steps', '1..range+1')
+    ck.bound('steps', '1..range+1, and the default (argument omitted)')
     ck.assume('histories never return to an earlier value (precondition of the property); equals is ==')
-    ck.assume('value kinds: int, 2-tuple, str, None-then-int, dict (the helpers are used with counters, vote lists and None)')
+    ck.assume('value kinds: int, 2-tuple, str, None-then-int, dict, 0-then-int, falsy values after the first (0, "", None), lists starting with [] '
+              '(the helpers are used with counters, vote lists and None)')
     ck.rule('R: every history = every set of <= 3 change levels in (last, head], for every range length, every step 1..range+1, '
             'value kinds; class = (range, #changes, step class, first change within one step of last, value kind)')
     jobs = []
-    for R in range(1, RMAX + 1):
+    for R in range(0, RMAX + 1):
         for last in (0, 7):
             kinds = KINDS if (R <= 8 or thorough and R <= 16) else ('int', 'pair')
             if last == 7 and R > 10 and not thorough:
                 continue
             for kind in kinds:
-                jobs.append((last, last + R, kind, 3))
-    jobs.sort(key=lambda j: -(j[1] - j[0]))
+                jobs.append(('steps', last, last + R, kind, 3))
+    for R in (1, 59, 60, 61, 121, 130):
+        for kind in ('int', 'zero-first'):
+            jobs.append(('default', 3, 3 + R, kind))
+    jobs.sort(key=lambda j: -(j[2] - j[1]))
     agg = {}
     with mp.get_context('fork').Pool(14 if thorough else 6) as pool:
-        for n, classes, fails in pool.imap_unordered(_row, jobs, chunksize=1):
+        for n, classes, fails in pool.imap_unordered(_job, jobs, chunksize=1):
             ck.evaluations += n
             ck.classes.update(classes)
             for key, f in fails.items():
@@ -220,8 +264,8 @@ def run_R(ck: Check):
                 else:
                     agg[key]['count'] += f['count']
                     a, b = f['case'], agg[key]['case']
-                    if (a['head'] - a['last'], len(a['changes']), a['step'], KINDS.index(a['kind']), a['last'], a['changes']) < \
-                            (b['head'] - b['last'], len(b['changes']), b['step'], KINDS.index(b['kind']), b['last'], b['changes']):
+                    if (a['head'] - a['last'], len(a['changes']), a['step'] or 0, KINDS.index(a['kind']), a['last'], a['changes']) < \
+                            (b['head'] - b['last'], len(b['changes']), b['step'] or 0, KINDS.index(b['kind']), b['last'], b['changes']):
                         agg[key]['case'], agg[key]['info'] = a, f['info']
     ck.samples.append(dict(last=0, head=9, changes=[2, 3, 8], kind='int', step=4))
     for (clause, w), f in sorted(agg.items()):
